@@ -372,6 +372,13 @@ fn check_other(rep: &mut Report) {
         vec![Op12::SetLut(0x23, vec![4; 60])],
         vec![Op12::SetLut(0x24, vec![5; 59])],
         vec![Op12::SetLut(0x25, vec![6; 1])],
+        // tables longer than the register (one of the 60-byte tables handed to a 42-byte loader, or more than
+        // 60 bytes): whatever the driver does with the surplus, the lines are released at the end of the call
+        vec![Op12::SetLut(0x21, vec![7; 60])],
+        vec![Op12::SetLut(0x25, vec![8; 43])],
+        vec![Op12::SetLut(0x20, vec![9; 61])],
+        vec![Op12::SetLut(0x24, vec![10; 100])],
+        vec![Op12::SetLut(0x22, vec![]), Op12::SetLut(0x23, vec![11; 64]), Op12::Write1(pixels((W / 8) as usize, 1, 81))],
     ];
     for seq in seqs {
         let mut rig = Rig12::ready();
@@ -405,6 +412,8 @@ fn check_other(rep: &mut Report) {
                     let cmds = cmds_of_op(&rig, chip);
                     match cmds.iter().find(|c| c.op == *r) {
                         Some(c) if c.nparams as usize == want.max(d.len()) => {}
+                        // (what happens to bytes beyond the register is not C15's matter)
+                        Some(c) if d.len() > want && c.nparams as usize >= want => {}
                         other => fails.push(("row-slice".into(), vec!["lut-length".into()], format!("LUT {:02X} on {}: {:?} bytes, expected {}", r, CHIP_NAMES[chip], other.map(|c| c.nparams), want))),
                     }
                 }
